@@ -151,7 +151,9 @@ func TestVerifC19KS(t *testing.T) {
 			site string
 		)
 
-		if a.Cyclic && c.Mut == "none" {
+		if os.Getenv("C19_FX6") == "1" {
+			site, o.Msg = Catch(func() { ks, err = keystore.NewKeyStoreFromPEMBytes(c.Bytes(), Password) })
+		} else if a.Cyclic && c.Mut == "none" {
 			// whether the recursion is reached depends on the key; the child decides
 			site, o.Msg = runChild(c.Parts)
 			if site == "" {
